@@ -115,6 +115,15 @@ def main():
             if cube.dtype in (np.dtype("int16"), np.dtype("float32")):
                 g = da.hdc.algo.spi(groups=[0] * cube.shape[2])
                 rec["grp_equal"] = bool(np.array_equal(g.values, r))
+            # the nodata keyword, with the value 0, must win over a missing or different attribute
+            cube0 = np.where((cube == nd) | (cube < 0), 0, cube).astype(cube.dtype)
+            r0 = gammastd_yxt(cube0, 0.0, 0, cube.shape[2])
+            try:
+                k1 = xr.DataArray(cube0, dims=("y", "x", "time"), coords={"time": t}).hdc.algo.spi(nodata=0)
+                k2 = xr.DataArray(cube0, dims=("y", "x", "time"), coords={"time": t}, attrs={"nodata": nd}).hdc.algo.spi(nodata=0)
+                rec["kw_nodata0_equal"] = bool(np.array_equal(k1.values, r0) and np.array_equal(k2.values, r0))
+            except Exception as e:  # noqa
+                rec["kw_nodata0_equal"] = "%s: %s" % (type(e).__name__, e)
         except Exception as e:  # noqa
             rec["error"] = "%s: %s" % (type(e).__name__, e)
         cubes.append(rec)
